@@ -207,3 +207,15 @@ package baggage
 //@   ensures err == nil ==> forall i in 0 .. len(m.properties) : len(m.properties[i].key) > 0 && utf8valid(m.properties[i].key) && (m.properties[i].hasValue ==> utf8valid(m.properties[i].value))
 //@   ensures err != nil ==> !m.hasData && m.key == "" && m.value == ""
 //@   assert@call PathUnescape#1 : $arg0 == value
+
+// ======================================================================== C11 serialisation shape (Property.String / Member.String)
+// a property is written as "key=value" exactly when it HAS a value (an empty value included: "key="), and as the bare key exactly
+// when it has none; the value goes through valueEscape; a member is always "key=" + escaped value, followed by ";" + properties
+// exactly when it has properties. The concatenations themselves are fmt / string builtins (layout as written in the source).
+//@ func (p Property) String() (s string)
+//@   prop C11
+//@   overflow assumed
+//@   unchecked frame,no-panic fmt.Sprintf
+//@   assert@call valueEscape#1 : p.hasValue && $arg0 == p.value
+//@   assert@return#2 : p.hasValue
+//@   assert@return#3 : !p.hasValue && $ret0 == p.key
